@@ -17,6 +17,7 @@
 #
 # vim: set fileencoding=utf-8 :
 
+from fractions import Fraction
 from math import sqrt, cos, sin, isclose, acos
 
 import numpy as np
@@ -124,6 +125,47 @@ def rotate(vec, axis, angle):
     return vsum(term1, term2, term3)
 
 
+def _plane_normal(crd):
+    d12 = [crd[3 + k] - crd[k] for k in range(3)]
+    d13 = [crd[6 + k] - crd[k] for k in range(3)]
+    return (d12[1] * d13[2] - d12[2] * d13[1],
+            d12[2] * d13[0] - d12[0] * d13[2],
+            d12[0] * d13[1] - d12[1] * d13[0])
+
+
+def _plane_a(crd):
+    return _plane_normal(crd)[0]
+
+
+def _plane_b(crd):
+    return _plane_normal(crd)[1]
+
+
+def _plane_c(crd):
+    return _plane_normal(crd)[2]
+
+
+def _plane_d(crd):
+    normal = _plane_normal(crd)
+    return sum(normal[k] * crd[k] for k in range(3))
+
+
+def _with_uncertainty(func, coords):
+    '''Evaluate `func` (a polynomial of degree at most one in each of the
+    `coords`, which are rational numbers) and the first-order bound of its
+    variation when every coordinate moves by four units in its last place.
+    '''
+    value = func(coords)
+    spread = 0
+    for i, coord in enumerate(coords):
+        if coord == 0:
+            continue
+        shifted = list(coords)
+        shifted[i] = coord + 1
+        spread += abs(coord) * abs(func(shifted) - value)
+    return value, spread * Fraction(4, 2**52)
+
+
 def planeParamsFromPoints(pt1, pt2, pt3):
     '''Compute the parameters `(a ,b, c, d)` of the plane passing through the
     three given points `pt1`, `pt2`, `pt3`.
@@ -152,49 +194,26 @@ def planeParamsFromPoints(pt1, pt2, pt3):
     unit_normal = renorm(normal)
     pos = scal(unit_normal, pt1)
 
-    epsilon = 1e-14
     params = [unit_normal[0], unit_normal[1], unit_normal[2], pos]
     flipped_params = [-unit_normal[0], -unit_normal[1], -unit_normal[2], -pos]
 
-    # the rounding error on the unit normal grows as the triangle gets
-    # thinner and as the points get farther from the origin; the error on
-    # `pos` also grows with the distance of the points from the origin. A
-    # plane through the origin (or parallel to an axis) defined by points a
-    # few metres away must still be recognised as such
-    size = sqrt(max(mag2(pt1), mag2(pt2), mag2(pt3)))
-    len12, len13 = sqrt(mag2(d12)), sqrt(mag2(d13))
-    # (about five units of the last place per unit of conditioning: a
-    # plane that misses the origin by much more than the rounding error must
-    # not be taken for one through the origin)
-    epsilon = max(epsilon, 1e-15 * (len12 * len13 + size * (len12 + len13))
-                  / sqrt(normal_len2))
-    pos_epsilon = epsilon * max(1.0, size)
-    if pos < -pos_epsilon:
-        # make sure the origin lies on the negative side of the plane
-        return flipped_params
-    if pos > pos_epsilon:
-        return params
-
-    # Here we are in the D=0 case. The origin lies in the plane; ensure that
-    # (0, 0, ∞) lies on the positive side of the plane
-    if unit_normal[2] < -epsilon:
-        return flipped_params
-    if unit_normal[2] > epsilon:
-        return params
-
-    # Here we are in the D=C=0 case. Ensure that (0, ∞, 0) lies on the positive
-    # side of the plane
-    if unit_normal[1] < -epsilon:
-        return flipped_params
-    if unit_normal[1] > epsilon:
-        return params
-
-    # Here we are in the D=C=B=0 case. Ensure that (∞, 0, 0) lies on the
-    # positive side of the plane
-    if unit_normal[0] < -epsilon:
-        return flipped_params
-    if unit_normal[0] > epsilon:
-        return params
+    # MCNP's rule: the origin lies on the negative side of the plane; if the
+    # plane passes through the origin (D=0), (0, 0, ∞) lies on the positive
+    # side; if D=C=0, (0, ∞, 0) does; if D=C=B=0, (∞, 0, 0) does.  In other
+    # words, the first of D, C, B, A that does not vanish is positive.
+    #
+    # "Vanishes" must not depend on the rounding errors of the computation
+    # above (which are large for thin triangles and for points far from the
+    # origin): the four quantities are evaluated exactly, with rational
+    # numbers, and compared with the only uncertainty there is, the one of
+    # the coordinates themselves (a few units in the last place of each).
+    coords = [Fraction(float(x)) for pt in (pt1, pt2, pt3) for x in pt]
+    for func in (_plane_d, _plane_c, _plane_b, _plane_a):
+        value, uncertainty = _with_uncertainty(func, coords)
+        if value < -uncertainty:
+            return flipped_params
+        if value > uncertainty:
+            return params
 
     # What are we even doing here?
     raise ValueError('Cannot convert plane from three points because the '
